@@ -50,7 +50,8 @@ def prove_lemmas(names, prop, tier):
             rec.update(status='refuted', model='hypotheses of the lemma are unsatisfiable (vacuous lemma)')
         elif f[0] == 'refuted':
             rec.update(status='refuted', model=f[1])
-        elif f[0] == 'discharged' and u[0] == 'discharged':
+        elif u[0] == 'discharged':
+            # a lemma is a validity claim over the spec functions: the unbounded proof decides it; the finite pass only refutes
             rec.update(status='discharged')
         else:
             rec.update(status='open', reason=u[1] or f[1])
